@@ -24,7 +24,9 @@ RULE = ('a case = a generated host program (1-3 modules + optionally a second di
         'generator and on the method; kinds snapshot / snapshot+log / log / metric / span line / span method; '
         'fire_count=-1 fire_period=0; a quarter of the single-effect tracepoints have a scripted condition '
         '(arbitrary allow/deny per hit); every 8th case is a lifecycle case: real TriggerHandler.start() / new_config / '
-        'shutdown(), threads started while the installed list is empty and run after tracepoints are configured. '
+        'shutdown(), threads started while the installed list is empty and run after tracepoints are configured; '
+        'every 8th case is a gated case: handler.new_config(new list) lands while thread T0 is parked inside the '
+        'matching of its first event of a file (a LineLocation subclass whose path property is a gate). '
         'Non-trivial = at least one effect produced and at least one tracepoint '
         'never reached. Distinct = distinct canonical JSON.')
 TRUSTED = ['CPython 3.12 trace-event discipline (checked against the recorded reference stream on every run: the '
@@ -197,12 +199,44 @@ def gen_lifecycle(rng, tier):
             'sched': [], 'model_seed': rng.randrange(10 ** 6), 'lifecycle': {'first': first, 'second': second}}
 
 
+def gen_gated(rng, tier):
+    """a config update that lands while thread T0 is inside the handler, matching its first event of file m0.py (one
+    installed trigger parks T0 when its path is read); T0 then goes on, a fresh thread T1 runs the same code."""
+    prog = th.gen_program(rng, nmods=rng.randint(1, 2), nfuncs=rng.randint(3, 4))
+    entries = [['m0', 'f0', rng.randint(0, 3)], ['m0', 'f0', rng.randint(0, 3)]]
+    tps = []
+    for _ in range(6):
+        tps = [tp for tp in gen_tps(rng, prog, entries) if not tp.get('scripted') and not tp.get('unmatchable')]
+        if any(tp['path'] == 'm0.py' and th.tp_location(tp)[0] == 'line' for tp in tps):
+            break
+    ex_lines, _ = th.executed(prog['files'], entries)
+    here = [l for f, l in ex_lines if f == 'm0.py']
+    if not any(tp['path'] == 'm0.py' and th.tp_location(tp)[0] == 'line' for tp in tps):
+        tps.append(mk_tp(rng, len(tps), 'm0.py', rng.choice(here), 'log', 'resp'))
+    for _ in range(2):                 # more line tracepoints on executed lines of the file: some only old, some only new
+        tps.append(mk_tp(rng, len(tps), 'm0.py', rng.choice(here), rng.choice(['log', 'snapshot', 'metric']),
+                         rng.choice(['resp', 'custom'])))
+    for i, tp in enumerate(tps):
+        tp['id'] = 'tp%d' % i
+    ids = [tp['id'] for tp in tps]
+    lines_m0 = [tp['id'] for tp in tps if tp['path'] == 'm0.py' and th.tp_location(tp)[0] == 'line']
+    old = set(i for i in ids if rng.random() < 0.6) | {lines_m0[0]}
+    new = set(i for i in ids if rng.random() < 0.6)
+    if new == old:
+        new = new ^ {lines_m0[-1]}
+    return {'kind': 'prog', 'mode': 'sys', 'files': prog['files'], 'entries': entries, 'tps': tps, 'scripts': {},
+            'sched': [], 'model_seed': rng.randrange(10 ** 6),
+            'gated': {'file': 'm0.py', 'old': sorted(old), 'new': sorted(new)}}
+
+
 def gen(rng, tier):
     k = 0
     while True:
         k += 1
         if k % 8 == 0:
             yield gen_lifecycle(rng, tier)
+        elif k % 8 == 4:
+            yield gen_gated(rng, tier)
         else:
             yield gen_case(rng, tier)
 
@@ -285,6 +319,13 @@ def corpus():
         {'kind': 'prog', 'mode': 'threads', 'files': {'m0.py': src}, 'entries': [['m0', 'g', 1]] * 2, 'scripts': {},
          'sched': [], 'model_seed': 9, 'lifecycle': {'first': None, 'second': ['tp0']},
          'tps': [{'id': 'tp0', 'path': 'm0.py', 'line': 8, 'args': u, 'metrics': [], 'via': 'custom'}]},
+        # a config update lands while T0 is matching its first event of m0.py: afterwards exactly the new tracepoints act
+        {'kind': 'prog', 'mode': 'sys', 'files': {'m0.py': src}, 'entries': [['m0', 'g', 1], ['m0', 'g', 2]],
+         'scripts': {}, 'sched': [], 'model_seed': 10, 'gated': {'file': 'm0.py', 'old': ['tp0'], 'new': ['tp1']},
+         'tps': [{'id': 'tp0', 'path': 'm0.py', 'line': 8, 'args': dict(u, snapshot='no_collect', log_msg='old'),
+                  'metrics': [], 'via': 'resp'},
+                 {'id': 'tp1', 'path': 'm0.py', 'line': 9, 'args': dict(u, snapshot='no_collect', log_msg='new'),
+                  'metrics': [], 'via': 'resp'}]},
         # no tracepoint at all; and only never-reached ones
         {'kind': 'prog', 'mode': 'sys', 'files': {'m0.py': src}, 'entries': [['m0', 'g', 1]], 'scripts': {},
          'sched': [], 'model_seed': 2, 'tps': []},
@@ -314,6 +355,38 @@ def host_events(obs, t):
 
 
 # --------------------------------------------------------------------------------------- judging
+def gate_index(case, obs, events):
+    """index, in T0's reference stream, of the event that was being matched when the config update landed"""
+    ga = obs.get('gate')
+    if not ga:
+        return None
+    for i, e in enumerate(events):
+        if th.fp(e) == th.fp(ga):
+            return i
+    return None
+
+
+def gated_align(case, obs, t, events, observed, groups_of, what):
+    """the configuration in force: T0 sees the old tracepoints before the event during which the update landed, the
+    new ones after it; that one event started before the update and may see either; every other thread runs after
+    the update has returned and sees the new ones."""
+    g = case['gated']
+    old = [tp for tp in case['tps'] if tp['id'] in g['old']]
+    new = [tp for tp in case['tps'] if tp['id'] in g['new']]
+    n = len(events)
+    if t != 'T0':
+        return th.align(groups_of(new, 0, n), observed, events, what=what)
+    j = gate_index(case, obs, events)
+    if j is None:
+        # T0 was never parked: the update came after T0's work (T1 waits for it)
+        return th.align(groups_of(old, 0, n), observed, events, what=what)
+    a = th.align(groups_of(old, 0, j + 1) + groups_of(new, j + 1, n), observed, events, what=what)
+    if not a[0]:
+        return a
+    b = th.align(groups_of(old, 0, j) + groups_of(new, j, n), observed, events, what=what)
+    return b if not b[0] else a
+
+
 def oracle(case, obs):
     if 'raised' in obs:
         return ['the agent raised: ' + obs['raised']]
@@ -328,8 +401,13 @@ def oracle(case, obs):
         events = host_events(obs, t)
         observed = [o for o in obs['effects'].get(t, []) if o['kind'] in FIRED]
         tps = th.lifecycle_tps(case, t) if case.get('lifecycle') else case['tps']
-        groups, _ = th.reference(tps, events, case.get('scripts', {}).get(t, {}))
-        vv, paired = th.align(groups, observed, events, what='the statement')
+        if case.get('gated'):
+            vv, paired = gated_align(case, obs, t, events, observed,
+                                     lambda tps_, lo, hi: [g for g in th.reference(tps_, events, {})[0]
+                                                           if lo <= g['i'] < hi], 'the statement')
+        else:
+            groups, _ = th.reference(tps, events, case.get('scripts', {}).get(t, {}))
+            vv, paired = th.align(groups, observed, events, what='the statement')
         v += ['thread %s: %s' % (t, x) for x in vv]
         # every tracepoint of a line collects the same frame: the locals of the event's frame
         for g, got in paired:
@@ -354,6 +432,15 @@ def model_request(case, obs):
         return None
     if case.get('lifecycle'):
         return th.lifecycle_requests(case, obs)
+    if case.get('gated'):
+        # the stream lift with the configuration replaced between two events: each thread's stream under the old and
+        # under the new tracepoints (which actions run at an event does not depend on earlier events: c03_stream)
+        g = case['gated']
+        reqs = []
+        for k in range(len(case['entries'])):
+            reqs.append(th.run_request(dict(case, gated=None), obs, only=set(g['old']), thread=k))
+            reqs.append(th.run_request(dict(case, gated=None), obs, only=set(g['new']), thread=k))
+        return {'op': 'batch', 'reqs': reqs}
     return th.run_request(case, obs)
 
 
@@ -378,6 +465,23 @@ def compare(case, obs, resp):
     if 'error' in resp:
         return ['model error: ' + resp['error']]
     d = []
+    if case.get('gated'):
+        for k, t in enumerate(threads_of(case)):
+            ro, rn = resp['resps'][2 * k], resp['resps'][2 * k + 1]
+            if 'error' in ro or 'error' in rn:
+                d.append('model error: %s' % (ro.get('error') or rn.get('error')))
+                continue
+            events = host_events(obs, t)
+            observed = [o for o in obs['effects'].get(t, []) if o['kind'] in FIRED]
+            go = model_groups(case, ro['threads'][0]['effects'])
+            gn = model_groups(case, rn['threads'][0]['effects'])
+            old_l = [tp for tp in case['tps'] if tp['id'] in case['gated']['old']]
+
+            def groups_of2(tps_, lo, hi, go=go, gn=gn, old_l=old_l):
+                return [g for g in (go if tps_ == old_l else gn) if lo <= g['i'] < hi]
+            vv, _ = gated_align(case, obs, t, events, observed, groups_of2, 'the model')
+            d += ['thread %s: %s' % (t, x) for x in vv]
+        return d
     if case.get('lifecycle'):
         for k, t in enumerate(threads_of(case)):
             r = resp['resps'][k]
@@ -406,7 +510,8 @@ def label(case, obs):
     if 'raised' in obs:
         return 'raised'
     n = sum(len([o for o in e if o['kind'] in FIRED]) for e in obs['effects'].values())
-    return '%s%s/%dthr/%s' % ('lifecycle' if case.get('lifecycle') else case['mode'],
+    return '%s%s/%dthr/%s' % ('lifecycle' if case.get('lifecycle') else
+                              ('gated' + ('' if obs.get('gate') else '-unparked')) if case.get('gated') else case['mode'],
                               '/nosource' if case.get('nosource') else '', len(case['entries']),
                               'none' if n == 0 else 'few' if n < 6 else 'many')
 
@@ -432,7 +537,7 @@ def shrink(case):
         c = dict(case)
         c['tps'] = tps[:i] + tps[i + 1:]
         yield c
-    if len(case['entries']) > 1 and not case.get('lifecycle'):
+    if len(case['entries']) > 1 and not case.get('lifecycle') and not case.get('gated'):
         for i in range(len(case['entries'])):
             c = dict(case)
             c['entries'] = case['entries'][:i] + case['entries'][i + 1:]
